@@ -13,9 +13,10 @@ package db
 
 //@ func Database.Put
 //@   option trusted interface
-//@   ensures result == nil
-//@   ensures ghost(kv) == @store(old(ghost(kv)), ref(this), @store(@select(old(ghost(kv)), ref(this)), bytes(key), bytes(value)))
-//@   ensures ghost(kvhas) == @store(old(ghost(kvhas)), ref(this), @store(@select(old(ghost(kvhas)), ref(this)), bytes(key), true))
+//@   # a write may fail (then nothing is written); functions that claim the fault-free run only assume ioReliable()
+//@   ensures [reliable] ioReliable() ==> result == nil
+//@   ensures [written] result == nil ==> ghost(kv) == @store(old(ghost(kv)), ref(this), @store(@select(old(ghost(kv)), ref(this)), bytes(key), bytes(value))) && ghost(kvhas) == @store(old(ghost(kvhas)), ref(this), @store(@select(old(ghost(kvhas)), ref(this)), bytes(key), true))
+//@   ensures [failed]  result != nil ==> ghost(kv) == old(ghost(kv)) && ghost(kvhas) == old(ghost(kvhas))
 //@   modifies ghost(kv), ghost(kvhas)
 
 //@ func Database.Delete
